@@ -12,6 +12,8 @@ mod w_c09;
 mod w_c11;
 mod w_c12;
 mod w_c18;
+mod w_c19;
+mod w_c20;
 mod w_misc;
 
 use json::J;
@@ -109,6 +111,18 @@ fn main() {
         }
         "c18" => {
             w_c18::run(&args, &mut rep);
+            true
+        }
+        "c19" => {
+            w_c19::run(&args, &mut rep);
+            true
+        }
+        "c20" => {
+            w_c20::run(&args, &mut rep);
+            true
+        }
+        "c20race" => {
+            w_c20::run_race(&args, &mut rep);
             true
         }
         "ctor_table" => {
